@@ -8,11 +8,13 @@ between whose calls the clock advances arbitrarily) and the `select` outcome an 
 
 One loop iteration (`iter`), as the source is now:
 ```
-queueSize, err := queue.Size()
-switch { case err != nil: arm RetryInterval
-         case time.Now().Before(retryAt): arm time.Until(retryAt)
+backingOff := time.Now().Before(retryAt)
+if !backingOff { queueSize, err = queue.Size() }     -- a queue that has just failed is not even asked for its size
+switch { case backingOff: arm time.Until(retryAt)
+         case err != nil: retryAt = time.Now().Add(RetryInterval); arm RetryInterval
          case queueSize == 0: arm maxTimerDuration
-         default: arm calculateNextTick() }     -- Head() error, ErrQueueEmpty included: RetryInterval
+         default: arm calculateNextTick()       -- Head() error, ErrQueueEmpty included: RetryInterval;
+                  if Head() failed (ErrQueueEmpty excluded) { retryAt = time.Now().Add(RetryInterval) } }
 select { case <-timer.C: if err := executeAndReschedule(ctx); err != nil { retryAt = time.Now().Add(RetryInterval) }
                           -- err: the Pop() error or the Push() error; an empty Pop() counts as an error unless
                           -- Size(), asked again under the queue lock, answers 0
@@ -22,7 +24,9 @@ The shape of the `switch`, of `calculateNextTick` and of the error plumbing of `
 (`Shape`), regenerated from the source by `harness/cmd/extract/x_faults.go`. The parameter also covers the two earlier
 forms of the loop, which serve as negative controls: no back-off state at all (`Backoff.none`, the loop spins) and
 a `failed` flag that re-arms the full `RetryInterval` in every iteration (`Backoff.flag`, interrupts postpone the
-retry for ever).
+retry for ever); and the form before the repair of finding F4 (`askFirst`: `Size()` is asked at the top of every
+iteration, before the back-off test, and a failing `Size()` / `Head()` only arms the timer: every interrupt makes the
+loop ask the failing queue again).
 
 `runQ` closes the loop over a queue that stores what is pushed: a sorted list of entries, wrapped by a fault plan that
 decides per call whether it fails (a failed call has no effect on the stored entries).
@@ -76,8 +80,16 @@ deriving DecidableEq, Repr
 structure Shape where
   /-- `case err != nil:` (the `Size()` error) -/
   onSizeErr : Arm
-  /-- the back-off state and its case in the `switch` (second case, after the `Size()` error) -/
+  /-- the back-off state and its case in the `switch` -/
   backoff : Backoff
+  /-- the back-off test comes first: `backingOff := time.Now().Before(retryAt)`, `Size()` is called only
+      `if !backingOff`, and `case backingOff:` is the first case of the `switch` (the source now). `false`: `Size()` is
+      called at the top of every iteration and its error case precedes the back-off case (the source before the repair
+      of F4) -/
+  backoffFirst : Bool
+  /-- a failing `Size()` / `Head()` (error other than `ErrQueueEmpty`) sets the back-off deadline:
+      `retryAt = time.Now().Add(RetryInterval)` in `case err != nil:` and after `calculateNextTick` returned an error -/
+  stateFromArm : Bool
   /-- the `timer.Reset` argument of the back-off case -/
   onBackoff : Arm
   /-- `case queueSize == 0:` -/
@@ -120,13 +132,14 @@ deriving DecidableEq, Repr
 
 /-- everything the environment decides during one loop iteration -/
 structure In where
-  /-- `queue.Size()`; `none` = error -/
+  /-- `queue.Size()`; `none` = error (consulted only if the loop is not backing off) -/
   size : Option Nat
-  /-- the clock read by the condition `time.Now().Before(retryAt)` -/
+  /-- the clock read by the condition `time.Now().Before(retryAt)` (first thing in the iteration, before `Size()`) -/
   now1 : Int
   /-- `queue.Head()`, as the head's `NextRunTime()` (consulted only if `calculateNextTick` runs) -/
   head : Res Int
-  /-- the clock read by `time.Until(retryAt)` / by `calculateNextTick` -/
+  /-- the clock read by `time.Until(retryAt)` / by `calculateNextTick` / by `retryAt = time.Now().Add(…)` after a
+      failed `Size()` or `Head()` (each path through the `switch` reads the clock at most once) -/
   now2 : Int
   /-- the moment `timer.Reset` is called -/
   tArm : Int
@@ -196,11 +209,23 @@ def inBackoff (S : Shape) (st : BState) (now1 : Int) : Bool :=
     | some r => decide (now1 < r)
     | none => false
 
+/-- is `Size()` skipped in this iteration (the back-off test comes first and says "backing off")? -/
+def skipsSize (S : Shape) (st : BState) (now1 : Int) : Bool := S.backoffFirst && inBackoff S st now1
+
 /-- the `switch` of the loop: which argument `timer.Reset` gets -/
 def chooseArm (S : Shape) (st : BState) (size : Option Nat) (now1 : Int) : Arm :=
+  if skipsSize S st now1 then S.onBackoff else
   match size with
   | none => S.onSizeErr
   | some n => if inBackoff S st now1 then S.onBackoff else if n = 0 then S.onEmpty else S.onDefault
+
+/-- the back-off state after the arming part of an iteration in which `Size()` / `Head()` failed (`armErr`) or not -/
+def afterArm (S : Shape) (c : Cfg) (st : BState) (armErr : Bool) (now2 : Int) : BState :=
+  if S.stateFromArm then
+    match S.backoff with
+    | .deadline => if armErr then { st with retryAt := some (now2 + c.R) } else st
+    | _ => st
+  else st
 
 /-- `validateJob` without the paused case (a paused entry sits at `math.MaxInt64` and behaves as "not due"):
     (valid, next run time or `none` if the trigger failed) -/
@@ -250,6 +275,7 @@ def afterTick (S : Shape) (c : Cfg) (st : BState) (retErr : Bool) (nowErr : Int)
 
 /-- one iteration of `startExecutionLoop` -/
 def iter (S : Shape) (c : Cfg) (trig : Trig) (st : BState) (i : In) : Out :=
+  let asksSize := !skipsSize S st i.now1
   let arm := chooseArm S st i.size i.now1
   let readsHead := decide (arm = .nextTick)
   let armed := match arm with
@@ -257,14 +283,16 @@ def iter (S : Shape) (c : Cfg) (trig : Trig) (st : BState) (i : In) : Out :=
     | .nextTick => calcNextTick S c i.head i.now2
     | .untilRetry => st.retryAt.getD i.now2 - i.now2
   let calls1 : List (Op × Outcome) :=
-    (.size, if i.size.isSome then .ok else .err) :: (if readsHead then [(.head, i.head.outcome)] else [])
-  let armErr := i.size.isNone || (readsHead && decide (i.head = .err))
+    (if asksSize then [(.size, if i.size.isSome then .ok else .err)] else []) ++
+      (if readsHead then [(.head, i.head.outcome)] else [])
+  let armErr := (asksSize && i.size.isNone) || (readsHead && decide (i.head = .err))
+  let st1 := afterArm S c st armErr i.now2
   if i.interrupted then
-    { armed, calls := calls1, dispatched := none, pushed := none, popped := none, armErr, tickErr := false, st }
+    { armed, calls := calls1, dispatched := none, pushed := none, popped := none, armErr, tickErr := false, st := st1 }
   else
     let f := fetch S c trig i
     { armed, calls := calls1 ++ f.calls, dispatched := f.dispatched, pushed := f.pushed, popped := f.popped,
-      armErr, tickErr := f.tickErr, st := afterTick S c st f.retErr i.nowErr }
+      armErr, tickErr := f.tickErr, st := afterTick S c st1 f.retErr i.nowErr }
 
 /-- the loop over a sequence of environment inputs: the outputs of the iterations and the final state -/
 def runLoop (S : Shape) (c : Cfg) (trig : Trig) (st : BState) : List In → List Out × BState
@@ -296,12 +324,18 @@ instance decWellTimed (S : Shape) (c : Cfg) (trig : Trig) :
 def WF (S : Shape) : Prop :=
   S.onSizeErr = .retry ∧ S.backoff = .deadline ∧ S.onBackoff = .untilRetry ∧ S.onEmpty = .max ∧
   S.onDefault = .nextTick ∧ S.headErr = .retry ∧ S.headEmpty = .retry ∧ S.stateFromTick = true ∧
-  S.popErrReturned = true ∧ S.popEmpty = .unlessSizeZero ∧ S.pushErrReturned = true
+  S.popErrReturned = true ∧ S.popEmpty = .unlessSizeZero ∧ S.pushErrReturned = true ∧
+  S.backoffFirst = true ∧ S.stateFromArm = true
 
 instance (S : Shape) : Decidable (WF S) := by unfold WF; infer_instance
 
 /-- the loop as it was before the repairs (no back-off state): the fault-free reference, and a negative control -/
 def plain (S : Shape) : Shape := { S with backoff := .none }
+
+/-- the loop before the repair of finding F4 (`size-head-retried-per-interrupt`): `Size()` is asked at the top of every
+    iteration, before the back-off test, and a failing `Size()` / `Head()` only arms the timer (a negative control: every
+    interrupt makes the loop ask the failing queue again at once) -/
+def askFirst (S : Shape) : Shape := { S with backoffFirst := false, stateFromArm := false }
 
 /-- `calculateNextTick` as it was before its repair: the zero duration when `Head()` returns `ErrQueueEmpty`
     (a negative control: a queue that reports a size but has no head makes the loop spin) -/
